@@ -472,9 +472,10 @@ var nomerge = map[string]interface{}{"scorchMergePlanOptions": bx.NoMergePlan}
 // Scenarios of C04.
 func Scenarios() []drv.Scenario {
 	d1 := []drv.Phase{{Bound: 1}}
+	d1r := []drv.Phase{{Bound: 1, Filter: "restricted"}}
 	return []drv.Scenario{
 		{Name: "S1-two-writers-reader", Doc: "2 writers × 2 batches ∥ reader with a held index reader; scorch on disk, default options",
-			Body: body(cfg{engine: "scorch", writers: 2, batches: 2}), Quick: d1,
+			Body: body(cfg{engine: "scorch", writers: 2, batches: 2}), Quick: d1r,
 			Thorough: []drv.Phase{{Bound: 1}, {Bound: 2, Filter: "restricted"}}},
 		{Name: "S3-writer-searcher-aggressive-merge", Doc: "1 writer × 3 batches (updates + deletes of earlier segments) ∥ reader + searcher; merge plan forcing file merges after every batch",
 			Body: body(cfg{engine: "scorch", conf: aggressive, writers: 1, batches: 3, searcher: true}), Quick: d1,
@@ -483,7 +484,7 @@ func Scenarios() []drv.Scenario {
 			Body: body(cfg{engine: "scorch", writers: 1, batches: 3, forceMrg: true}), Quick: d1,
 			Thorough: []drv.Phase{{Bound: 1}, {Bound: 2, Filter: "restricted"}}},
 		{Name: "S4-unsafe-two-persister-workers", Doc: "2 writers × 2 unsafe batches ∥ reader; 2 persister workers with in-memory merges",
-			Body: body(cfg{engine: "scorch", conf: unsafe2, writers: 2, batches: 2}), Quick: d1,
+			Body: body(cfg{engine: "scorch", conf: unsafe2, writers: 2, batches: 2}), Quick: d1r,
 			Thorough: []drv.Phase{{Bound: 1}, {Bound: 2, Filter: "restricted"}}},
 		{Name: "S6-batch-lands-while-file-merge-in-flight", Doc: "writer ∥ background file merge parked (public event callback) between building the merged segment and its introduction; a batch obsoleting documents of the merge inputs lands in between",
 			Body: bodyGated(aggressive, false), Quick: d1, Thorough: []drv.Phase{{Bound: 1}, {Bound: 2, Filter: "restricted"}}},
